@@ -6,7 +6,10 @@
 
 package proxycore
 
-import "fmt"
+import (
+	"fmt"
+	"time"
+)
 
 func verifHostsN(n int) []*Host {
 	hosts := make([]*Host, n)
@@ -70,6 +73,20 @@ func verifReplayNewQueryPlan(counter uint32, n int) error {
 	}
 	if ib != (ia+1)%n {
 		return fmt.Errorf("with counter=%d and %d hosts, consecutive plans start at hosts %d and %d", counter, n, ia, ib)
+	}
+	return nil
+}
+
+// verifReplayNextDelay: a reconnect delay must lie within [min(base,max), max].
+func verifReplayNextDelay(base, max time.Duration, attempts int) error {
+	d := &defaultReconnectPolicy{attempts: attempts, maxAttempts: calcMaxAttempts(base), baseDelay: base, maxDelay: max}
+	got := d.NextDelay()
+	lo := base
+	if max < lo {
+		lo = max
+	}
+	if got > max || got < lo {
+		return fmt.Errorf("NextDelay() with base=%v max=%v attempts=%d returned %v, outside [%v, %v]", base, max, attempts, got, lo, max)
 	}
 	return nil
 }
